@@ -4,29 +4,41 @@
    Code model:    Deps/Tarjan.v  (circular_detector.go, dependency_graph.go), constants from
                   Gen/DepsConst.v.
 
-   Full statement (NOT proved for every graph):
-     C11_tarjan_exact : forall g (every iteration order mg of build_graph g),
-        exists out, tarjan mg = Some out /\ Permutation (map (norm g) out) (scc_spec g).
-   Proved instead:
+   Full statement, PROVED for every graph (no size bound) and every map-iteration order:
+     C11_tarjan_exact : forall g mg, wf g mg ->
+        exists out, tarjan mg = Some out /\ Permutation (map (norm g) out) (scc_spec g) /\
+                    Forall (fun c => NoDup c /\ forall x, In x c -> In x (verts g)) out.
+   [wf g mg] (Deps/TarjanWf.v, decided by [wfb], C11_wf_decidable) says that the detector's
+   graph mg presents the digraph g: distinct module names, the same modules, every import
+   the detector follows is an import of g, every import of g between two different modules is
+   followed; nothing is assumed about the order of the modules or of the imports of a module.
+   The graph built by AddModule/AddDependency satisfies it in every iteration order
+   (C11_build_graph_wf, C11_tarjan_exact_orders = the bounded statement without the bound).
+   Proof: Deps/TarjanCorrect.v (state invariant relative to the DFS spine, loop invariant of
+   the loop over the imports, post-condition of strongConnect, induction on the fuel).
+   Readings of the full statement:
+     - C11_tarjan_terminates: the fuel |modules|+1 is never exhausted, the code never panics;
+     - C11_tarjan_components_strongly_connected: every reported component is strongly connected,
+       maximal, duplicate-free, with two or more modules;
+     - C11_tarjan_complete: two different modules are reported together iff each reaches the other,
+       and no module is reported twice;
+     - C11_tarjan_checked: the certificate checker accepts the model's output;
+     - C11_detect_exact: DetectCircularDependencies reports the specified cycle count, modules
+       in cycles and sizes.
+   Also proved (as before):
      - the specification is what the property says, for every graph (theorems C11_spec_...);
      - a certificate checker that accepts only the specification, for every graph and every
        output (theorems C11_certificate...); the correspondence check runs it on the implementation's
        outputs;
-     - the full statement for every digraph with at most four modules, six iteration orders
-       (C11_tarjan_exact_bounded, by computation);
+     - the full statement for every digraph with at most four modules, six iteration orders, by
+       computation (C11_tarjan_exact_bounded; now a special case of C11_tarjan_exact_orders);
      - the statistics follow from the partition (theorems C11_stats_...), for every graph;
      - for every graph, every iteration order and every fuel: the components the Tarjan model
-       reports have two or more modules each and are pairwise disjoint, and its statistics are
-       count = number of components, modules in cycles = sum of the sizes
-       (C11_tarjan_components_partial, C11_tarjan_disjoint_partial, C11_tarjan_statistics).
-   Missing for the full statement: that for graphs with more than four modules (or other
-   iteration orders) each reported component is strongly connected and maximal, and that the
-   recursion-depth fuel |modules|+1 is never exhausted (both observed on every sampled graph
-   by the correspondence check, which also runs the proved checker on the implementation's
-   own output). *)
+       reports have two or more modules each and are pairwise disjoint
+       (C11_tarjan_components_partial, C11_tarjan_disjoint_partial, C11_tarjan_statistics). *)
 From Coq Require Import List NArith ZArith Bool Arith Permutation.
 From PV Require Import Gen.DepsConst Deps.SccSpec Deps.SccSpecProofs Deps.Tarjan Deps.DepsRun
-  Deps.TarjanProofs Deps.TarjanInv Deps.TarjanBounded.
+  Deps.TarjanProofs Deps.TarjanInv Deps.TarjanBounded Deps.TarjanCorrect Deps.TarjanWf.
 Import ListNotations.
 Local Open Scope nat_scope.
 
@@ -74,6 +86,64 @@ Theorem C11_tarjan_exact_bounded : forall n mask, n <= 4 -> (mask < 2 ^ N.of_nat
   exists out, tarjan mg = Some out /\ Permutation (map (norm g) out) (scc_spec g) /\
               Forall (fun c => NoDup c /\ forall x, In x c -> In x (verts g)) out.
 Proof. exact tarjan_exact_bounded. Qed.
+
+(* ---------- the unbounded exactness theorem ---------- *)
+(* Tarjan model = specification, for every digraph and every presentation of it to the detector
+   (any order of `range Nodes`, any order of `range Dependencies`) *)
+Theorem C11_tarjan_exact : forall g mg, wf g mg ->
+  exists out, tarjan mg = Some out /\ Permutation (map (norm g) out) (scc_spec g) /\
+              Forall (fun c => NoDup c /\ forall x, In x c -> In x (verts g)) out.
+Proof. exact tarjan_exact. Qed.
+
+(* the hypothesis is decidable ... *)
+Theorem C11_wf_decidable : forall g mg, wfb g mg = true <-> wf g mg.
+Proof. exact wfb_spec. Qed.
+(* ... does not depend on the iteration orders ... *)
+Theorem C11_wf_order_independent : forall g mg mg', Permutation mg mg' -> wf g mg -> wf g mg' /\ wf g (rev_deps mg').
+Proof. intros g mg mg' P H. split; [|apply wf_rev_deps]; eapply wf_perm; eassumption. Qed.
+(* ... and holds of the graph AddModule/AddDependency build from distinct module names *)
+Theorem C11_build_graph_wf : forall g, NoDup (verts g) -> wf g (build_graph g).
+Proof. exact build_graph_wf. Qed.
+
+(* the bounded statement without the bound *)
+Theorem C11_tarjan_exact_orders : forall g, NoDup (verts g) ->
+  forall mg, In mg (orders (build_graph g)) ->
+  exists out, tarjan mg = Some out /\ Permutation (map (norm g) out) (scc_spec g) /\
+              Forall (fun c => NoDup c /\ forall x, In x c -> In x (verts g)) out.
+Proof. exact tarjan_exact_orders. Qed.
+
+(* (1) recursion depth: the fuel |modules|+1 is never exhausted; no index-out-of-range panic *)
+Theorem C11_tarjan_terminates : forall g mg, wf g mg -> exists out, tarjan mg = Some out.
+Proof. exact tarjan_terminates. Qed.
+
+(* (2) every reported component is strongly connected and maximal *)
+Theorem C11_tarjan_components_strongly_connected : forall g mg out, wf g mg -> tarjan mg = Some out ->
+  forall c, In c out ->
+    2 <= length c /\ NoDup c /\ (forall x, In x c -> In x (verts g)) /\
+    (forall x y, In x c -> In y c -> mutual g x y) /\
+    (forall x w, In x c -> In w (verts g) -> mutual g x w -> In w c).
+Proof. exact tarjan_components_sccs. Qed.
+
+(* (3) every class of two or more mutually reachable modules is reported, exactly once *)
+Theorem C11_tarjan_complete : forall g mg out, wf g mg -> tarjan mg = Some out ->
+  NoDup (concat out) /\
+  forall a b, In a (verts g) -> In b (verts g) -> a <> b ->
+    ((exists c, In c out /\ In a c /\ In b c) <-> mutual g a b).
+Proof. exact tarjan_same_cycle. Qed.
+
+(* the proved checker accepts the model's output (the checker is complete) *)
+Theorem C11_tarjan_checked : forall g mg, wf g mg -> exists out, tarjan mg = Some out /\ check_sccs g out = true.
+Proof. exact tarjan_checked. Qed.
+
+(* DetectCircularDependencies: cycles, cycle count, modules in cycles and sizes are the specified ones *)
+Theorem C11_detect_exact : forall g mg, wf g mg ->
+  exists r, DetectCircularDependencies mg = Some r /\
+    Permutation (map (norm g) (map c_modules (r_cycles r))) (scc_spec g) /\
+    r_total_cycles r = Z.of_nat (spec_cycle_count g) /\
+    r_total_modules r = Z.of_nat (spec_modules_in_cycles g) /\
+    Permutation (map c_size (r_cycles r)) (map Z.of_nat (spec_sizes g)) /\
+    r_has r = negb (spec_cycle_count g =? 0).
+Proof. exact detect_exact. Qed.
 
 (* every graph, every order: each reported component has >= 2 modules, no module is reported twice *)
 Theorem C11_tarjan_components_partial : forall g out, tarjan g = Some out ->
@@ -153,3 +223,13 @@ Print Assumptions C11_stats_counts.
 Print Assumptions C11_spec_modules_sum.
 Print Assumptions C11_severity_table.
 Print Assumptions C11_severity_counts_total.
+Print Assumptions C11_tarjan_exact.
+Print Assumptions C11_wf_decidable.
+Print Assumptions C11_wf_order_independent.
+Print Assumptions C11_build_graph_wf.
+Print Assumptions C11_tarjan_exact_orders.
+Print Assumptions C11_tarjan_terminates.
+Print Assumptions C11_tarjan_components_strongly_connected.
+Print Assumptions C11_tarjan_complete.
+Print Assumptions C11_tarjan_checked.
+Print Assumptions C11_detect_exact.
